@@ -1277,8 +1277,12 @@ class tensor:
             return self.copy()
 
         # Check for special case of an order-1 object, has no effect
-        if (order == 1).all():
+        if self.ndims == 1 and (order == 1).all():
             return self.copy()
+
+        # Negative entries would be accepted by np.transpose as axes counted from the end
+        if np.any(np.sort(order) != np.arange(0, self.ndims)):
+            assert False, "Invalid permutation order"
 
         # The identity permutation would otherwise return a view of this tensor's data
         if np.array_equal(order, np.arange(self.ndims)):
